@@ -6,6 +6,7 @@ mod net;
 mod tlsgrid;
 mod mockio;
 mod points;
+mod pty;
 mod util;
 
 use mockio::{mock, Rx};
@@ -180,6 +181,10 @@ async fn run_srv(tok: &[&str]) -> String {
             handlers.push((unit, h.clone()));
             map.add(UnitId::new(unit), h);
         }
+        if handlers.len() == 1 {
+            // the one-unit constructor of the library
+            map = ServerHandlerMap::single(UnitId::new(handlers[0].0), handlers[0].1.clone());
+        }
     }
     let (io, handle) = mock();
     let (cmd_tx, cmd_rx) = tokio::sync::mpsc::channel(8);
@@ -297,6 +302,14 @@ async fn run_rdr(tok: &[&str]) -> String {
     format!("{}{}", if evs.is_empty() { "-".into() } else { evs }, res)
 }
 
+/// `role <expected roles> <DER hex>`: the production role extraction on a certificate
+fn run_role(tok: &[&str]) -> String {
+    match rodbus::verif::extract_role_from_der(&unhex(tok[2])) {
+        Ok(r) => format!("role={}", role_hex(&r)),
+        Err(_) => "err".into(),
+    }
+}
+
 async fn run_case(line: &str) -> String {
     let tok: Vec<&str> = line.split_whitespace().collect();
     if tok.is_empty() {
@@ -316,6 +329,8 @@ async fn run_case(line: &str) -> String {
         "slife" => life::run_slife(&tok).await,
         "net" => net::run_net(&tok).await,
         "tls" => tlsgrid::run_tls(&tok).await,
+        "role" => run_role(&tok),
+        "pty" => pty::run_pty(&tok).await,
         other => format!("unknown-suite {other}"),
     }
 }
@@ -356,7 +371,7 @@ fn main() {
         }
         // a fresh paused-clock current-thread runtime per case: cases cannot influence each other
         // network suites use real sockets and therefore the real clock
-        let real_time = line.starts_with("life ") || line.starts_with("slife ") || line.starts_with("net ") || line.starts_with("tls ");
+        let real_time = line.starts_with("life ") || line.starts_with("slife ") || line.starts_with("net ") || line.starts_with("tls ") || line.starts_with("pty ");
         let rt = tokio::runtime::Builder::new_current_thread()
             .enable_all()
             .start_paused(!real_time)
